@@ -25,7 +25,14 @@ PROGS_T = PROGS_Q + [("E",), ("D",), ("N1", "N2", "C"), ("N1", "N2", "E"), ("N1"
 def make(kind):
     from reactivex.subject import AsyncSubject, BehaviorSubject, ReplaySubject, Subject
 
-    return {"Subject": Subject, "BehaviorSubject": lambda: BehaviorSubject(0), "AsyncSubject": AsyncSubject, "ReplaySubject": lambda: ReplaySubject(2)}[kind]()
+    def replay():
+        # two retained values: a racing subscriber must get them before anything live
+        r = ReplaySubject(2)
+        r.on_next(8)
+        r.on_next(9)
+        return r
+
+    return {"Subject": Subject, "BehaviorSubject": lambda: BehaviorSubject(0), "AsyncSubject": AsyncSubject, "ReplaySubject": replay}[kind]()
 
 
 class Err(Exception):
